@@ -151,6 +151,8 @@ def run_protocol(ck, repo, rule='B3', only_entries=None, only_dims=None, contain
                   'atom/bond/order/charge/radical writes, (STEREO) re-validated stereo; path-sensitive walk with '
                   'callee inlining, witness collections and protocol flags; exemptions are a frozen table')
     P = Protocol(repo, container)
+    P.is8_free = dict(IS8_FREE)
+    P.keep_exempt = lambda entry_q, o: exempt(entry_q, o, repo)
     cls = P.container
     per_entry = {}
     own = {}
@@ -216,6 +218,13 @@ def run_protocol(ck, repo, rule='B3', only_entries=None, only_dims=None, contain
                 ws = sorted(P.entry_writes[f.fq])
                 ck.ok(rule, f'{f.qualname}|{dim}', f'{len(ws)} reachable raw writes (e.g. {ws[0][0].split(":")[1]}:{ws[0][1]} {ws[0][2]}); '
                                                   f'none leaves {dim} pending at a normal exit')
+    for (entry, dim, cat, origin), why in sorted(P.exempted.items(), key=str):
+        eq = entry.split(':')[1]
+        if only_entries is not None and eq not in only_entries:
+            continue
+        if only_dims is not None and dim not in only_dims:
+            continue
+        ck.ok(rule + '-exempt', f'{eq}|{dim}:{cat}|{origin[0].split(":")[1]}|{origin[2]}', why, nontrivial=False)
     ck.count('B3 entry points', len(ents))
     ck.count('B3 functions walked', len(P.visited_funcs))
     ck.count('B3 raw write sites', len(P.write_sites))
